@@ -5150,6 +5150,8 @@ class DecRule:
 
         if self.model is not rvar.model.top:
             raise ValueError('Models mismatch.')
+        if rvar.model is not self.model.sup_model:
+            raise TypeError('Adaptation must be defined for random variables.')
 
         num_rand = self.model.sup_model.vars[-1].last
         if self.depend is None:
